@@ -123,9 +123,9 @@ func init() {
 		Assumptions: []string{"the race detector reports only races that happened on the interleavings the scheduler produced", "shared documents are never written by the harness; user functions are pure"},
 		Plan: func(tier string, seed int64) *harness.Plan {
 			var cc *concCorpus
-			ops := size(tier, 3000, 12000)
+			ops := size(tier, 3000, 10000)
 			return &harness.Plan{
-				N:           size(tier, 16, 160),
+				N:           size(tier, 16, 96),
 				Race:        true,
 				NoRaceToo:   true,
 				MaxShards:   4,
